@@ -33,6 +33,15 @@ M = [
  ("sync-requeue-unrenamed", "varpulis-runtime/src/engine/mod.rs",
   "                    if !skip_rename {\n                        for output_event in result.output_events {",
   "                    if true {\n                        for output_event in result.output_events {", ["C17", "C16"]),
+ ("batch-chain-depth-2", "varpulis-runtime/src/engine/mod.rs",
+  "        // Process all events in FIFO order (critical for sequence patterns!)\n        while let Some((current_event, depth)) = pending_events.pop_front() {\n            if depth >= MAX_CHAIN_DEPTH {\n                debug!(\n                    \"Max chain depth reached for event type: {}\",\n                    current_event.event_type\n                );\n                continue;\n            }\n\n            // Get stream names (Arc clone is O(1))\n            let stream_names: Arc<[String]> = self\n                .router\n                .get_routes(&current_event.event_type)\n                .cloned()\n                .unwrap_or_else(|| Arc::from([]));\n\n            for stream_name in stream_names.iter() {\n                if let Some(stream) = self.streams.get_mut(stream_name) {\n                    let start = std::time::Instant::now();",
+  "        // Process all events in FIFO order (critical for sequence patterns!)\n        while let Some((current_event, depth)) = pending_events.pop_front() {\n            if depth >= 2 {\n                debug!(\n                    \"Max chain depth reached for event type: {}\",\n                    current_event.event_type\n                );\n                continue;\n            }\n\n            // Get stream names (Arc clone is O(1))\n            let stream_names: Arc<[String]> = self\n                .router\n                .get_routes(&current_event.event_type)\n                .cloned()\n                .unwrap_or_else(|| Arc::from([]));\n\n            for stream_name in stream_names.iter() {\n                if let Some(stream) = self.streams.get_mut(stream_name) {\n                    let start = std::time::Instant::now();", ["C16", "C17"]),
+ ("tumbling-restore-no-start", "varpulis-runtime/src/window.rs",
+  "        self.window_start = cp.window_start_ms.and_then(DateTime::from_timestamp_millis);",
+  "        self.window_start = None; let _ = cp.window_start_ms;", ["C19"]),
+ ("sliding-restore-no-last-emit", "varpulis-runtime/src/window.rs",
+  "        self.last_emit = cp.last_emit_ms.and_then(DateTime::from_timestamp_millis);",
+  "        self.last_emit = None; let _ = cp.last_emit_ms;", ["C19"]),
  ("tumbling-cp-no-start", "varpulis-runtime/src/window.rs", None, None, ["C19"]),
  ("limit-not-restored", "varpulis-runtime/src/engine/mod.rs",
   "limit_states.insert(\n                            name.clone(),\n                            crate::persistence::LimitCheckpoint {\n                                max: state.max,\n                                count: state.count,",
